@@ -53,6 +53,7 @@ enum { CB_ONE, CB_ZERO, CB_UNSPEC };
 #define FL_MUTOK   1		/* a failing call may change the destination */
 #define FL_L0FAIL  2		/* the baseline call itself must fail */
 #define FL_L0ANY   4		/* nothing asserted on the baseline outcome */
+#define FL_VNPV    8		/* v selects one of the vnacal_new_t objects */
 
 typedef struct { long i; double d; double complex z; const void *p; } cv_t;
 typedef struct { cv_t v; int cls; int em; const char *lab; } dv_t;
@@ -65,7 +66,13 @@ typedef struct fx {
     vnacal_t *vcp2;
     int ciA, ciB, ciStale, ciEnd, ciAlloc;
     vnacal_new_t *vnpL, *vnpS, *vnpR;
+    vnacal_new_t *vnpT16, *vnpU16;	/* live, one partial-S standard each */
+    vnacal_new_t *vnpA3, *vnpA5, *vnpA1;	/* solvable T8 1x1 objects with 3, 5
+					   and 1 frequencies sharing p_shared
+					   (unknown) and p_sharedc (correlated) */
     int p_scalar, p_vector, p_unknown, p_corr, p_stale, p_alloc, p_new;
+    int p_shared, p_sharedc;
+    double *f1;
     double *f3, *f5, *fdesc, *fneg, *flow, *fhigh, *sig5, *sigz, *signeg;
     double complex *g5, *z2, *vec3, *mat4;
     double complex **mp, **ap;
@@ -75,10 +82,33 @@ typedef struct fx {
     char path_cal[720], path_badcal[720], path_vercal[720], path_npd[720],
 	 path_s2p[720], path_bad[720], path_none[720], path_nodir[720],
 	 path_out[720], path_yaml[720], path_dig[720];
-    void *blocks[64];
+    void *blocks[160];
     int nblocks;
     int built;
 } fx_t;
+
+/* the vnacal_new_t objects of the fixture, by variant number */
+enum { VN_L, VN_R, VN_T16, VN_U16, VN_S, VN_A5, VN_A3, VN_A1, VN_N };
+static const char *const vn_name[VN_N] = {
+    "vnpL", "vnpR", "vnpT16", "vnpU16", "vnpS", "vnpA5", "vnpA3", "vnpA1"
+};
+static vnacal_new_t **fx_vnpp(fx_t *F, int v)
+{
+    switch (v) {
+    case VN_L:   return &F->vnpL;
+    case VN_R:   return &F->vnpR;
+    case VN_T16: return &F->vnpT16;
+    case VN_U16: return &F->vnpU16;
+    case VN_S:   return &F->vnpS;
+    case VN_A5:  return &F->vnpA5;
+    case VN_A3:  return &F->vnpA3;
+    default:     return &F->vnpA1;
+    }
+}
+static int fx_vnp_nf(int v)
+{
+    return v == VN_A5 ? 5 : v == VN_A1 ? 1 : NF;
+}
 
 typedef struct res {
     int failed;
@@ -134,6 +164,35 @@ static int fx_solved(vnacal_t *vcp, cs_scenario *sc, const char *name,
     return vnacal_find_calibration(vcp, name);
 }
 
+/*
+ * a solvable T8 1x1 object over the frequencies f[0..nf-1]: short, open,
+ * match, a reflect with the shared unknown and one with the shared
+ * correlated parameter, measured through a fixed one-port error box
+ */
+static vnacal_new_t *fx_build_A(fx_t *F, const double *f, int nf)
+{
+    const double complex e00 = 0.1 + 0.05 * I, e11 = 0.2 - 0.1 * I,
+	  e10e01 = 0.9 * cexp(0.3 * I);
+    const double complex g[5] = { -1.0, 1.0, 0.0, 0.3 + 0.4 * I,
+	0.31 + 0.39 * I };
+    int h[5] = { VNACAL_SHORT, VNACAL_OPEN, VNACAL_MATCH, F->p_shared,
+	F->p_sharedc };
+    vnacal_new_t *vnp = vnacal_new_alloc(F->vcp, VNACAL_T8, 1, 1, nf);
+
+    if (vnp == NULL || vnacal_new_set_frequency_vector(vnp, f) != 0)
+	return NULL;
+    for (int k = 0; k < 5; ++k) {
+	double complex *vec = fx_block(F, (size_t)nf * sizeof(double complex));
+	double complex **pp = fx_block(F, sizeof(double complex *));
+	for (int i = 0; i < nf; ++i)
+	    vec[i] = e00 + e10e01 * g[k] / (1.0 - e11 * g[k]);
+	pp[0] = vec;
+	if (vnacal_new_add_single_reflect_m(vnp, pp, 1, 1, h[k], 1) != 0)
+	    return NULL;
+    }
+    return vnp;
+}
+
 /* returns NULL on success or the name of the step that failed */
 static const char *fx_build(fx_t *F)
 {
@@ -185,6 +244,7 @@ static const char *fx_build(fx_t *F)
 
     /* user arrays: exact-size heap blocks so that over-reads are seen */
     F->f3 = fx_block(F, 3 * sizeof(double));
+    F->f1 = fx_block(F, 1 * sizeof(double));
     F->f5 = fx_block(F, 5 * sizeof(double));
     F->fdesc = fx_block(F, 5 * sizeof(double));
     F->fneg = fx_block(F, 5 * sizeof(double));
@@ -212,6 +272,7 @@ static const char *fx_build(fx_t *F)
 	F->signeg[k] = k == 1 ? -0.01 : 0.01;
 	F->g5[k] = 0.5 * vf_cunit(3300, (uint64_t)k);
     }
+    F->f1[0] = F->f3[1];
     F->z2[0] = 50.0; F->z2[1] = 75.0 + 5.0 * I;
     for (int k = 0; k < 3; ++k)
 	F->vec3[k] = vf_cunit(3301, (uint64_t)k);
@@ -240,6 +301,11 @@ static const char *fx_build(fx_t *F)
     if (F->p_scalar < 3 || F->p_vector < 3 || F->p_unknown < 3 ||
 	    F->p_corr < 3 || F->p_stale < 3)
 	return "make parameters";
+    F->p_shared = vnacal_make_unknown_parameter(F->vcp, F->p_scalar);
+    F->p_sharedc = vnacal_make_correlated_parameter(F->vcp, F->p_shared,
+	    F->f5, 1, F->sig5);
+    if (F->p_shared < 3 || F->p_sharedc < 3)
+	return "make shared parameters";
     if (vnacal_delete_parameter(F->vcp, F->p_stale) != 0)
 	return "delete parameter";
     F->p_alloc = F->vcp->vc_parameter_collection.vprmc_allocation;
@@ -280,6 +346,24 @@ static const char *fx_build(fx_t *F)
     if (vnacal_new_add_single_reflect_m(F->vnpR, F->mp, 1, 2, VNACAL_SHORT,
 		1) != 0)
 	return "add to vnpR";
+
+    /* 16-term objects holding a standard whose S matrix is incomplete */
+    F->vnpT16 = vnacal_new_alloc(F->vcp, VNACAL_T16, 2, 2, NF);
+    F->vnpU16 = vnacal_new_alloc(F->vcp, VNACAL_U16, 2, 1, NF);
+    if (F->vnpT16 == NULL || F->vnpU16 == NULL ||
+	    vnacal_new_set_frequency_vector(F->vnpT16, F->f3) != 0 ||
+	    vnacal_new_set_frequency_vector(F->vnpU16, F->f3) != 0)
+	return "alloc 16-term objects";
+    if (vnacal_new_add_single_reflect_m(F->vnpT16, F->mp, 2, 2, VNACAL_SHORT,
+		1) != 0 ||
+	    vnacal_new_add_single_reflect_m(F->vnpU16, F->mp, 2, 1,
+		VNACAL_SHORT, 1) != 0)
+	return "add to 16-term objects";
+    /* three solvable objects of different length sharing unknowns */
+    if ((F->vnpA3 = fx_build_A(F, F->f3, 3)) == NULL ||
+	    (F->vnpA5 = fx_build_A(F, F->f5, 5)) == NULL ||
+	    (F->vnpA1 = fx_build_A(F, F->f1, 1)) == NULL)
+	return "build shared-unknown objects";
 
     /* properties */
     if (vnacal_property_set(F->vcp, -1, "gk=gv") != 0 ||
@@ -578,8 +662,10 @@ static void fx_digest(fx_t *F, dig_t *D, int with_save)
 			F->f3[0]);
 		double complex v1 = vnacal_get_parameter_value(vcp, p,
 			F->f3[2]);
+		double complex v2 = vnacal_get_parameter_value(vcp, p,
+			F->f5[4]);
 		dg(D, "param[%d]: ", p);
-		dg_z(D, v0); dg_z(D, v1);
+		dg_z(D, v0); dg_z(D, v1); dg_z(D, v2);
 		dg(D, "\n");
 	    }
 	}
@@ -592,9 +678,8 @@ static void fx_digest(fx_t *F, dig_t *D, int with_save)
 	dg(D, "vcp: (freed)\n");
     }
     if (F->vcp != NULL) {
-	dg_vnp(D, "vnpL", F->vnpL);
-	dg_vnp(D, "vnpS", F->vnpS);
-	dg_vnp(D, "vnpR", F->vnpR);
+	for (int v = 0; v < VN_N; ++v)
+	    dg_vnp(D, vn_name[v], *fx_vnpp(F, v));
     }
     dg_vd(D, "vd", F->vd);
     dg_vd(D, "vdf", F->vdf);
